@@ -39,7 +39,7 @@ import Driver.Proto
 /-!
 Three-way comparison for the Python → Lean translator: the definitions generated from the *current* Python sources
 (`GambitV.Gen.*`, translated by harness/py2lean.py) are evaluated next to the value the real code returned.  A difference is a
-broken correspondence of the translation (reported as `FAIL generated …`).  When a function could not be translated the
+broken correspondence of the translation (reported as `DIFF generated …`).  When a function could not be translated the
 comparison is skipped (the check already treats the tie as broken).
 -/
 namespace Driver.PyGen
@@ -50,10 +50,11 @@ def resStr {α : Type} (f : α → String) : Py.Res α → String
   | .raised e => "!" ++ e.name
   | .fuelOut => "!fuel"
 
-/-- `none` = the generated definition agrees with the real value (or is not available) -/
+/-- `none` = the generated definition agrees with the real value (or is not available); a difference is a broken correspondence (`DIFF`, DESIGN §2.5):
+whether the input is a *failing* one is decided by the statement's own predicate on the same case -/
 def cmp (fn : String) (untranslatable : Bool) (gen real : String) : Option String :=
   if untranslatable || gen == real then none
-  else some s!"FAIL generated {fn} (translated from the current source) = {gen}, real = {real}"
+  else some s!"DIFF generated {fn} (translated from the current source) ~ the real function: generated = {gen}, real = {real}"
 
 /-- a Biopython clade as text: `name:length` for a terminal, `(child,child):length` otherwise; `~` = None -/
 partial def cladeStr (c : Py.Clade) : String :=
